@@ -3,7 +3,10 @@ package props
 import (
 	"bytes"
 	"fmt"
+	"strings"
 	"time"
+
+	"verifharness/core"
 
 	"verifharness/rec"
 	"verifharness/wire"
@@ -193,4 +196,63 @@ func waitDataEnds(l *rec.Log) bool {
 		}
 		time.Sleep(200 * time.Microsecond)
 	}
+}
+
+// seededConv builds the k-th conversation of the seeded family (thorough tiers of C07/C08): a
+// random mode, 1..3 messages, each sent with DATA (random CRLF-line body with dots, bare CR/LF
+// and terminator look-alikes) or with 1..4 BDAT chunks (zero sizes included).
+func seededConv(seed uint64, k int) conv {
+	r := core.NewRand(seed, 707, uint64(k))
+	mode := []srvMode{modeSMTP, modeLMTP, modeLMTPRcpt}[r.Intn(3)]
+	b := newConv(fmt.Sprintf("seeded-%d", k), mode)
+	toks := []string{"x", "line", ".", "..", "\r", "\n", " ", "\x00", "\xff", "QUIT", ".\r", "\n.\n", "MAIL FROM:<bait@x.test>"}
+	nmsg := 1 + r.Intn(3)
+	for m := 0; m < nmsg; m++ {
+		nr := 1 + r.Intn(3)
+		b.envelope(nr)
+		var body string
+		for l := r.Intn(5); l > 0; l-- {
+			line := ""
+			for t := 1 + r.Intn(4); t > 0; t-- {
+				line += toks[r.Intn(len(toks))]
+			}
+			if line == "." {
+				line = ".."
+			}
+			body += line + "\r\n"
+		}
+		// the body must not contain the end marker itself
+		for strings.Contains(body, "\r\n.\r\n") || strings.HasPrefix(body, ".\r\n") {
+			body = strings.Replace(body, ".\r\n", ".x\r\n", 1)
+		}
+		if r.Bool() {
+			b.data(body)
+		} else {
+			msg := body + toks[r.Intn(len(toks))]
+			var sizes []int
+			rem := len(msg)
+			for c := 1 + r.Intn(4); c > 1 && rem > 0; c-- {
+				n := r.Intn(rem + 1)
+				sizes = append(sizes, n)
+				rem -= n
+			}
+			sizes = append(sizes, rem)
+			if r.Chance(1, 3) {
+				sizes = append(sizes, 0)
+			}
+			b.bdat(msg, sizes...)
+		}
+	}
+	return b.done()
+}
+
+// convFor returns conversation k of the fixed corpus (cseed == 0) or of the seeded family.
+func convFor(fixed []conv, cseed uint64, k int) (conv, bool) {
+	if cseed != 0 {
+		return seededConv(cseed, k), true
+	}
+	if k < 0 || k >= len(fixed) {
+		return conv{}, false
+	}
+	return fixed[k], true
 }
